@@ -48,7 +48,14 @@ func (c *Config) getScannerConfig() scanner.Config {
 		CompactKey: getCompactKey(c.Prefix),
 		Tombstone:  tombStoneBytes,
 		TTL:        time.Second * time.Duration(eventsTTL),
+		// only keys in the events resource directory directly under the prefix expire
+		EventsPrefix: getEventsPrefix(c.Prefix),
 	}
+}
+
+// getEventsPrefix returns the directory of Kubernetes Event objects: <prefix>/events/
+func getEventsPrefix(prefix string) []byte {
+	return []byte(prefix + string(events))
 }
 
 func (c *Config) complete() {
